@@ -1,4 +1,6 @@
-package parquet_test
+package scratch
+
+// D95 (C01/C03): failed before the fix commit; see known_findings.json.
 
 // PRE-EXISTING (fails on the unchanged tree): a time.Duration field tagged
 // `time(millisecond)` or `time(microsecond)` does not round-trip through
@@ -17,7 +19,7 @@ import (
 	"github.com/parquet-go/parquet-go"
 )
 
-func TestPreexisting3DurationWithTimeUnit(t *testing.T) {
+func TestD95DurationInTimeColumn(t *testing.T) {
 	type row struct {
 		Ms time.Duration `parquet:"ms,time(millisecond)"`
 		Us time.Duration `parquet:"us,time(microsecond)"`
